@@ -30,4 +30,10 @@ CHECKS["C04"] = dict(level="exploration", technique="TLC-generated exhaustive or
          "SortEigenValues, SortEigenVectors, fses::sort, and the same tied spectra through computeEigenValues/Vectors(o) of the 8 "
          "solvers; TLC judges sortedness, multiset preservation and that columns travel with their values.",
     note="Exhaustive over order patterns (the property depends only on comparisons). Solver accuracy is out of scope here (C03).", ref="8/C04")
+CHECKS["C10"] = dict(level="exploration", technique="TLC-generated cubics constructed from known roots, branch-exhaustive, judged by TLC (Cubic.tla)",
+    text="Cubics are constructed in the specification from every multiset of integer roots in -3..3 and every real-root x irreducible "
+         "quadratic, so the truth is exact; TLC asserts that all six branches of Cardan's case analysis are exercised, the harness "
+         "replays them at 5 binary scales with and without refinement, and TLC judges count, membership, multiplicity-aware accuracy "
+         "and residual monotonicity of the refinement.",
+    note="Tolerances eps^(1/m) with margin fixed a priori; integer roots only (off-lattice conditioning not explored).", ref="8/C10")
 NOT_APPLICABLE = {}
